@@ -24,13 +24,14 @@ import vlib
 from vlib import Ctx, run_tlc, build_harness, parse_jsonl, SPEC
 
 D = os.path.join(SPEC, "shutdown")
-ACTIONS = ["Sig_Send", "Cli_Connect", "Cli_SendHalf", "Cli_SendRest", "Cli_Close", "Worker_Take", "Worker_Disc",
+ACTIONS = ["Sig_Send", "Sig_Again", "Cli_Connect", "Cli_SendHalf", "Cli_SendRest", "Cli_Close", "Worker_Take", "Worker_Disc",
            "H_Read", "H_Finish", "H_Write", "H_Eof", "Accept_Return", "Flag_Read", "Dispatch", "Pool_Stop",
            "Closure_Drop", "Sig_Recv", "Flag_Set", "Wake_Connect", "Join_Return"]
 SENS = [  # (cfg, deviation, kind of violation expected, name)
     ("MC_Shutdown_dev_NoWake.cfg", "NoWake", "temporal", None),
     ("MC_Shutdown_dev_JoinWorkers.cfg", "JoinWorkers", "temporal", None),
     ("MC_Shutdown_dev_BoundedQueue.cfg", "BoundedQueue", "temporal", None),
+    ("MC_Shutdown_dev_BoundedQueueCap.cfg", "BoundedQueueCap", "temporal", None),
     ("MC_Shutdown_dev_ReturnBeforeJoin.cfg", "ReturnBeforeJoin", "invariant", "Inv_PortFree"),
     ("MC_Shutdown_dev_ListenerLeak.cfg", "ListenerLeak", "invariant", "Inv_PortFree"),
     ("MC_Shutdown_dev_DenyWhenSaturated.cfg", "DenyWhenSaturated", "invariant", "Inv_ServingBefore"),
@@ -38,7 +39,7 @@ SENS = [  # (cfg, deviation, kind of violation expected, name)
     ("MC_Shutdown_dev_AbortOnStop.cfg", "AbortOnStop", "invariant", "Inv_NoTruncation"),
     ("MC_Shutdown_dev_StopDropsQueue.cfg", "StopDropsQueue", "invariant", "Inv_DispatchedKept"),
 ]
-WITNESS = ["Never_ClientBeforeWake", "Never_WakeDuringDispatch", "Never_ReturnedSaturated", "Never_AcceptAfterCancel"]
+WITNESS = ["Never_ClientBeforeWake", "Never_WakeDuringDispatch", "Never_ReturnedSaturated", "Never_ReturnedDeepQueue", "Never_AcceptAfterCancel"]
 
 
 def tlc_job(*a, **k):
@@ -329,7 +330,8 @@ def run(tier, replay):
         return o
     def idx(ev, name, nth=0):
         return [i for i, e in enumerate(ev) if e["ev"] == name][nth]
-    muts = [] if base is None or base_t is None else [
+    # (only after a clean validation: on a broken tree the verdict is already exit 1 and must not be turned into a tool error)
+    muts = [] if base is None or base_t is None or ctx.violations else [
         ("Flag_Read value flipped", mutate(base, lambda ev: [dict(e, v=1 - e["v"]) if i == idx(ev, "Flag_Read") else e for i, e in enumerate(ev)])),
         ("Dispatch record dropped", mutate(base, lambda ev: [e for i, e in enumerate(ev) if i != idx(ev, "Dispatch")])),
         ("Run_Return record dropped (run did not return)", mutate(base, lambda ev: [e for e in ev if e["ev"] not in ("Run_Return", "Rebind", "Obs_Closed")])),
